@@ -184,3 +184,29 @@ pub fn delta_line_delta_start(text: &str) -> (u32, u32) {
         text[last_line_break_index..].encode_utf16().count() as u32,
     )
 }
+
+/// Visibility-only hook for /verif: the LSP tokens produced for ONE relative token
+/// (`tok_start..tok_end`, relative to `literal_start`) of one literal in `page_content`.
+#[cfg(isographlabs_isograph_verif)]
+pub(crate) fn verif_tokens(
+    page_content: &str,
+    literal_start: u32,
+    tok_start: u32,
+    tok_end: u32,
+) -> Vec<(u32, u32, u32)> {
+    use intern::string_key::Intern;
+    let text_source = TextSource {
+        relative_path_to_source_file: "verif".intern().into(),
+        span: None,
+    };
+    let relative = WithEmbeddedLocation::new(
+        isograph_lang_types::semantic_token_legend::ST_COMMENT,
+        common_lang_types::EmbeddedLocation::new(text_source, Span::new(tok_start, tok_end)),
+    );
+    let span = Span::new(literal_start, page_content.len() as u32);
+    let absolute: Vec<AbsoluteIsographSemanticToken> =
+        absolutize_relative_token(page_content, span, &relative).collect();
+    convert_absolute_token_to_lsp_token(absolute.into_iter(), page_content)
+        .map(|t| (t.delta_line, t.delta_start, t.length))
+        .collect()
+}
